@@ -1,0 +1,266 @@
+//go:build verif
+
+package main
+
+// Second driver for the correspondence check of property C19 (/verif): whole exchanges through
+// the real main().  Runs main() with the static registry backend and the response-header timeout
+// given in VERIF_C19_BODY_IN, waits for the proxy listener and reports what a client of the proxy
+// observes, on a plain-http route (default transport), a skip-verify route and a host-override
+// route, for exchanges in which the client uploads its request body slowly and / or the upstream
+// sends its header after a delay and its body in chunks with gaps: status, time until the header,
+// time until the end of the body, the body bytes, whether the body ended properly, whether the
+// upstream received the whole request, how many requests the upstream received.
+// Read-only: nothing of fabio is modified.  One configuration per process.  Skipped unless
+// VERIF_C19_BODY_IN is set.
+
+import (
+	"bytes"
+	"encoding/json"
+	"fmt"
+	"io"
+	"net"
+	"net/http"
+	"net/http/httptest"
+	"os"
+	"sync"
+	"sync/atomic"
+	"testing"
+	"time"
+)
+
+type verifC19BodyChunk struct {
+	Gap  int64 // ms after the previous event
+	Data []byte
+}
+
+type verifC19BodyScen struct {
+	Upload, Delay int64 // ms
+	Status        int
+	CL            bool
+	Chunks        []verifC19BodyChunk
+}
+
+type verifC19BodyIn struct {
+	RHT   int64 // ns
+	Scens []verifC19BodyScen
+}
+
+type verifC19BodyObs struct {
+	Path          string
+	Scen          int
+	Status        int
+	Head, Elapsed int64 // ms
+	Hits          int64
+	Body          []byte
+	Complete      bool
+	ReqWhole      bool
+	Err           string
+	Remeasured    bool
+}
+
+const verifC19BodyPieces = 5
+const verifC19BodyPieceLen = 64
+
+type verifC19BodyCounters struct{ hits, got int64 }
+
+func verifC19BodyFreeAddr() string {
+	l, err := net.Listen("tcp", "127.0.0.1:0")
+	if err != nil {
+		panic(err)
+	}
+	defer l.Close()
+	return l.Addr().String()
+}
+
+func TestVerifC19Body(t *testing.T) {
+	inFile, outFile := os.Getenv("VERIF_C19_BODY_IN"), os.Getenv("VERIF_C19_BODY_OUT")
+	if inFile == "" || outFile == "" {
+		t.Skip("VERIF_C19_BODY_IN / VERIF_C19_BODY_OUT not set")
+	}
+	var in verifC19BodyIn
+	b, err := os.ReadFile(inFile)
+	if err != nil {
+		t.Fatal(err)
+	}
+	if err := json.Unmarshal(b, &in); err != nil {
+		t.Fatal(err)
+	}
+
+	var mu sync.Mutex
+	counters := map[string]*verifC19BodyCounters{}
+	counter := func(key string) *verifC19BodyCounters {
+		mu.Lock()
+		defer mu.Unlock()
+		c := counters[key]
+		if c == nil {
+			c = &verifC19BodyCounters{got: -1}
+			counters[key] = c
+		}
+		return c
+	}
+	handler := http.HandlerFunc(func(w http.ResponseWriter, r *http.Request) {
+		var id int
+		fmt.Sscanf(r.URL.Query().Get("id"), "%d", &id)
+		if id < 0 || id >= len(in.Scens) {
+			http.Error(w, "no such scenario", 400)
+			return
+		}
+		s := in.Scens[id]
+		c := counter(r.URL.Path + "#" + r.URL.Query().Get("id"))
+		atomic.AddInt64(&c.hits, 1)
+		body, _ := io.ReadAll(r.Body)
+		atomic.StoreInt64(&c.got, int64(len(body)))
+		time.Sleep(time.Duration(s.Delay) * time.Millisecond)
+		if s.CL {
+			n := 0
+			for _, ch := range s.Chunks {
+				n += len(ch.Data)
+			}
+			w.Header().Set("Content-Length", fmt.Sprint(n))
+		}
+		w.WriteHeader(s.Status)
+		w.(http.Flusher).Flush()
+		for _, ch := range s.Chunks {
+			select {
+			case <-time.After(time.Duration(ch.Gap) * time.Millisecond):
+			case <-r.Context().Done():
+				return
+			}
+			if _, err := w.Write(ch.Data); err != nil {
+				return
+			}
+			w.(http.Flusher).Flush()
+		}
+	})
+	upstream := httptest.NewTLSServer(handler)
+	defer upstream.Close()
+	plain := httptest.NewServer(handler)
+	defer plain.Close()
+
+	proxyAddr, uiAddr := verifC19BodyFreeAddr(), verifC19BodyFreeAddr()
+	routes := fmt.Sprintf("route add override /override %s opts \"host=upstream.example tlsskipverify=true\"\n"+
+		"route add skipverify /skipverify %s opts \"tlsskipverify=true\"\n"+
+		"route add plain /plain %s\n", upstream.URL, upstream.URL, plain.URL)
+	os.Args = []string{"fabio",
+		"-insecure",
+		"-proxy.addr", proxyAddr,
+		"-ui.addr", uiAddr,
+		"-registry.backend", "static",
+		"-registry.static.routes", routes,
+		"-proxy.responseheadertimeout", time.Duration(in.RHT).String(),
+		"-log.level", "ERROR",
+	}
+	go main()
+
+	deadline := time.Now().Add(15 * time.Second)
+	for {
+		c, err := net.Dial("tcp", proxyAddr)
+		if err == nil {
+			c.Close()
+			break
+		}
+		if time.Now().After(deadline) {
+			t.Fatal("proxy did not come up: ", err)
+		}
+		time.Sleep(20 * time.Millisecond)
+	}
+
+	exchange := func(path string, id int) verifC19BodyObs {
+		s := in.Scens[id]
+		c := counter(path + "#" + fmt.Sprint(id))
+		atomic.StoreInt64(&c.hits, 0)
+		atomic.StoreInt64(&c.got, -1)
+		client := &http.Client{Timeout: 30 * time.Second, Transport: &http.Transport{DisableKeepAlives: true}}
+		defer client.CloseIdleConnections()
+		url := fmt.Sprintf("http://%s%s?id=%d", proxyAddr, path, id)
+		var req *http.Request
+		var sent int64
+		var upDone chan struct{}
+		t0 := time.Now()
+		if s.Upload > 0 {
+			pr, pw := io.Pipe()
+			req, _ = http.NewRequest("POST", url, pr)
+			upDone = make(chan struct{})
+			go func() {
+				defer close(upDone)
+				for i := 1; i <= verifC19BodyPieces; i++ {
+					time.Sleep(time.Until(t0.Add(time.Duration(s.Upload*int64(i)/verifC19BodyPieces) * time.Millisecond)))
+					n, err := pw.Write(bytes.Repeat([]byte{byte('0' + i)}, verifC19BodyPieceLen))
+					atomic.AddInt64(&sent, int64(n))
+					if err != nil {
+						return
+					}
+				}
+				pw.Close()
+			}()
+		} else {
+			req, _ = http.NewRequest("GET", url, nil)
+		}
+		o := verifC19BodyObs{Path: path, Scen: id, Status: -1}
+		resp, err := client.Do(req)
+		o.Head = time.Since(t0).Milliseconds()
+		if err != nil {
+			o.Err = err.Error()
+		} else {
+			o.Status = resp.StatusCode
+			body, rerr := io.ReadAll(resp.Body)
+			resp.Body.Close()
+			o.Body, o.Complete = body, rerr == nil
+			if rerr != nil {
+				o.Err = rerr.Error()
+			}
+		}
+		o.Elapsed = time.Since(t0).Milliseconds()
+		if upDone != nil {
+			select {
+			case <-upDone:
+			case <-time.After(time.Duration(s.Upload)*time.Millisecond + 2*time.Second):
+			}
+		}
+		// a request the proxy has given up on may still be running in the upstream
+		time.Sleep(30 * time.Millisecond)
+		o.Hits = atomic.LoadInt64(&c.hits)
+		if s.Upload > 0 {
+			o.ReqWhole = atomic.LoadInt64(&c.got) == verifC19BodyPieces*verifC19BodyPieceLen && atomic.LoadInt64(&sent) == verifC19BodyPieces*verifC19BodyPieceLen
+		} else {
+			o.ReqWhole = atomic.LoadInt64(&c.got) == 0
+		}
+		return o
+	}
+
+	var out []verifC19BodyObs
+	var omu sync.Mutex
+	var wg sync.WaitGroup
+	for _, path := range []string{"/plain", "/skipverify", "/override"} {
+		for id := range in.Scens {
+			wg.Add(1)
+			go func(path string, id int) {
+				defer wg.Done()
+				s := in.Scens[id]
+				total := s.Upload + s.Delay
+				for _, ch := range s.Chunks {
+					total += ch.Gap
+				}
+				o := exchange(path, id)
+				// No exchange, served or given up, takes longer than the upstream's own pace: an observation a
+				// second beyond it is a stall of the machine and is measured once more (a defect that holds or
+				// cuts the client shows again); the faster of the two observations is reported.
+				if o.Elapsed > total+1000 {
+					time.Sleep(time.Duration(total) * time.Millisecond)
+					if again := exchange(path, id); again.Elapsed < o.Elapsed {
+						o = again
+					}
+					o.Remeasured = true
+				}
+				omu.Lock()
+				out = append(out, o)
+				omu.Unlock()
+			}(path, id)
+		}
+	}
+	wg.Wait()
+	b, _ = json.Marshal(out)
+	if err := os.WriteFile(outFile, b, 0o644); err != nil {
+		t.Fatal(err)
+	}
+}
